@@ -16,9 +16,12 @@ import (
 	"strconv"
 	"strings"
 	"testing"
+	"time"
 
 	"github.com/robustirc/robustirc/internal/robust"
 )
+
+var c08StuckWait = 20 * time.Second
 
 type c08SeqOp struct {
 	Kind string
@@ -48,6 +51,7 @@ func TestVerifC08Seq(t *testing.T) {
 		MaxLen     int             `json:"max_len"`
 	}
 	res := &result{States: map[string]bool{}, MaxLen: maxLen}
+	chainReads := os.Getenv("VERIF_C08_CHAIN") == "1"
 	sigs := map[string]*c08Violation{}
 	cancelled, cancel := context.WithCancel(context.Background())
 	cancel()
@@ -75,7 +79,32 @@ func TestVerifC08Seq(t *testing.T) {
 			if !has {
 				ctx = cancelled
 			}
-			msgs := o.GetNext(ctx, robust.Id{Id: op.Id})
+			var msgs []Message
+			if !has {
+				msgs = o.GetNext(ctx, robust.Id{Id: op.Id})
+			} else {
+				// a successor exists, so the call has to return; a call that parks itself can never be woken in a
+				// sequential program: bound the wait, then free the goroutine and report
+				cctx, ccancel := context.WithCancel(ctx)
+				done := make(chan []Message, 1)
+				go func() { done <- o.GetNext(cctx, robust.Id{Id: op.Id}) }()
+				select {
+				case msgs = <-done:
+					ccancel()
+				case <-time.After(c08StuckWait):
+					ccancel()
+					c08StuckWait = time.Second // one report is enough to fail the run: do not wait as long again
+					for stuck := true; stuck; {
+						o.InterruptGetNext()
+						select {
+						case <-done:
+							stuck = false
+						case <-time.After(time.Millisecond):
+						}
+					}
+					return fmt.Sprintf("GetNext(%d) stays blocked, want batch %d", op.Id, want)
+				}
+			}
 			if !has {
 				if len(msgs) != 0 {
 					return fmt.Sprintf("GetNext(%d) returned batch %d although no successor exists", op.Id, msgs[0].Id.Id)
@@ -211,7 +240,9 @@ func TestVerifC08Seq(t *testing.T) {
 			}
 			// reads do not change the stream: only extend behind mutators (and behind a leading read,
 			// so that "read, then mutate" orders are covered too)
-			if len(seq) < maxLen && (op.Kind == "add" || op.Kind == "del" || len(seq) < 2) {
+			// (VERIF_C08_CHAIN=1, used with the small-cache build: reads fill and evict the batch cache, so they
+			// are extended like mutators)
+			if len(seq) < maxLen && (op.Kind == "add" || op.Kind == "del" || len(seq) < 2 || chainReads) {
 				rec(seq, k0)
 			}
 		}
